@@ -8,6 +8,8 @@ REAL_TXN = ("real code: tikv.KVStore, txnkv/transaction, txnkv/txnsnapshot, txnk
 PROPS = {
     "C01": {
         "engine": "txnsim",
+        "level_text": "seeded deterministic simulation of 2-6 concurrent transactions on 1-3 clients with injected message loss, duplication, delay, region errors and topology changes; every read, every Commit acknowledgement and the final per-key MVCC records are checked against the timestamp-ordered committed history (snapshot reads, atomic outcome, write-write conflicts, locking reads, inserts, external consistency)",
+        "level_note": "trusted: the simulator (simkit), the repository's mock TiKV as the server, the oracle; sampling, not exhaustive; 2PC only on the mock backend",
         "level": "exploration",
         "modes": [
             {"mode": "workload", "quick": {"runs": 3000}, "thorough": {"runs": 120000}},
@@ -27,6 +29,8 @@ PROPS = {
     },
     "C02": {
         "engine": "txnsim",
+        "level_text": "for every generated small transaction shape the committing client is crashed at every RPC/TSO position of Commit in both variants (position dimension enumerated completely); survivors recover after the TTL; the MVCC records of all keys are audited for one all-or-nothing outcome consistent with what the victim was told, no lock left, and all concurrent snapshot reads consistent",
+        "level_note": "trusted: simkit, crash = permanent partition, mock TiKV; shapes, companions and survivor schedules are sampled",
         "level": "fault_enumeration",
         "modes": [
             {"mode": "crash", "quick": {"runs": 35 * 60}, "thorough": {"runs": 35 * 3000}},
@@ -42,6 +46,8 @@ PROPS = {
     },
     "C03": {
         "engine": "txnsim",
+        "level_text": "single faults of 12 kinds enumerated at every RPC position of Commit per shape plus sampled multi-fault placements; the class of the error Commit returned is compared with the final per-key MVCC truth, and an undetermined result must be explained by a commit-point request whose outcome was lost",
+        "level_note": "trusted: simkit, mock TiKV, the classification of commit-point requests made from the wire trace",
         "level": "fault_enumeration",
         "modes": [
             {"mode": "faults", "quick": {"runs": 200 * 12}, "thorough": {"runs": 200 * 600}},
@@ -55,6 +61,8 @@ PROPS = {
     },
     "C04": {
         "engine": "txnsim",
+        "level_text": "a passive monitor evaluates nine ordering/timestamp/mutation rules over the complete wire trace, TSO log and API history of every run of four transactional workloads (mixed, fault enumeration, crash enumeration, contention)",
+        "level_note": "trusted: simkit's trace (every request/response crossing the tikv.Client seam, stamped with a global sequence), the rules as written in DESIGN.md",
         "level": "exploration",
         "modes": [
             {"mode": "workload", "quick": {"runs": 1500}, "thorough": {"runs": 60000}},
@@ -70,6 +78,8 @@ PROPS = {
     },
     "C06": {
         "engine": "txnsim",
+        "level_text": "contending transactions with failing LockKeys steps under region errors and topology changes but no message loss; TTLs are set so that nothing can expire; once the clients' background work has drained the store is scanned for locks of ended transactions",
+        "level_note": "trusted: simkit, drain detection (no RPC in flight or submitted for 12 simulated seconds), lock dump read from the store object",
         "level": "exploration",
         "modes": [
             {"mode": "leftover", "quick": {"runs": 3000}, "thorough": {"runs": 120000}},
@@ -82,3 +92,15 @@ PROPS = {
         "assumptions": ["backend M (mocktikv)", "aggressive-locking call sequences are generated only in the reference-backend configuration"],
     },
 }
+
+NOT_APPLICABLE = [
+    {"property_id": "C08", "reason": "pure function of an operation sequence on a single-threaded in-memory structure: no schedule, clock, I/O, fault or second party for a simulator to control (DESIGN.md section 4)"},
+    {"property_id": "C19", "reason": "pure functions of their input (memory-comparable codecs): nothing for a scheduler, clock or fault to act on (DESIGN.md section 4)"},
+]
+
+ENGINES = [
+    {"name": "txnsim", "path": "sim/engines/txnsim", "serves_properties": ["C01", "C02", "C03", "C04", "C06"],
+     "kind_free_text": "whole-system deterministic simulation of transactional clients (synctest bubble, simulated transport / PD / TSO, seeded fault injection, MVCC ground-truth oracles)"},
+]
+
+HOOK_COMMITS = []
